@@ -8,16 +8,19 @@
 (* variants that are not skipped).                                          *)
 (*                                                                         *)
 (* A declaration: kind "struct" (fields) or "enum" (variants of fields);    *)
-(* a field is [uses, skip]: the set of declared parameters its type uses    *)
-(* (what Usage.tla decides), and whether it carries #[darling(skip)].       *)
+(* a field is [uses, skip, flatten]: the set of declared parameters its     *)
+(* type uses (what Usage.tla decides), whether it carries #[darling(skip)]  *)
+(* and whether it is the flatten member (parsed through from_list, so its   *)
+(* parameters need the bound like any other parsed field's).                *)
 (***************************************************************************)
 EXTENDS Common, SequencesExt
 
 CONSTANTS EMIT
 Declared == {"T", "U", "V"}
 FieldUses == {{}, {"T"}, {"U"}, {"T", "U"}}
-Fld(u, s) == [uses |-> u, skip |-> s]
-Fields == {Fld(u, s) : u \in FieldUses, s \in BOOLEAN}
+Fld3(u, s, fl) == [uses |-> u, skip |-> s, flatten |-> fl]
+Fld(u, s) == Fld3(u, s, FALSE)
+Fields == {Fld(u, s) : u \in FieldUses, s \in BOOLEAN} \cup {Fld3(u, FALSE, TRUE) : u \in FieldUses}
 FieldSeqs == {<<>>} \cup {<<f>> : f \in Fields} \cup {<<f, g>> : f \in Fields, g \in {Fld({"U"}, FALSE), Fld({"T"}, TRUE), Fld({}, FALSE)}}
 Var(fs, s) == [fs |-> fs, skip |-> s]
 
@@ -42,7 +45,7 @@ Parsed == IF kind = "struct" THEN {fields[i] : i \in {i \in 1..Len(fields) : ~fi
           ELSE UNION {{variants[j].fs[i] : i \in {i \in 1..Len(variants[j].fs) : ~variants[j].fs[i].skip}} : j \in {j \in 1..Len(variants) : ~variants[j].skip}}
 Needs == {p \in Declared : \E f \in Parsed : p \in f.uses}
 C19_Bounds == out # <<"?">> => Range(out) = Needs
-EmitDone == (EMIT /\ out # <<"?">>) => Emit("REPLAY", [kind |-> kind, fields |-> [i \in 1..Len(fields) |-> [uses |-> SetToSeq(fields[i].uses), skip |-> fields[i].skip]],
-   variants |-> [j \in 1..Len(variants) |-> [skip |-> variants[j].skip, fs |-> [i \in 1..Len(variants[j].fs) |-> [uses |-> SetToSeq(variants[j].fs[i].uses), skip |-> variants[j].fs[i].skip]]]],
+EmitDone == (EMIT /\ out # <<"?">>) => Emit("REPLAY", [kind |-> kind, fields |-> [i \in 1..Len(fields) |-> [uses |-> SetToSeq(fields[i].uses), skip |-> fields[i].skip, flatten |-> fields[i].flatten]],
+   variants |-> [j \in 1..Len(variants) |-> [skip |-> variants[j].skip, fs |-> [i \in 1..Len(variants[j].fs) |-> [uses |-> SetToSeq(variants[j].fs[i].uses), skip |-> variants[j].fs[i].skip, flatten |-> variants[j].fs[i].flatten]]]],
    expect |-> SetToSeq(Needs)])
 =============================================================================
